@@ -453,8 +453,40 @@ def optimizers():
     return {c.__name__: c for c in (DifferentialEvolution, jDE, SHADE, SHAGA, SelfCGA, GeneticAlgorithm)}
 
 
+def decode_and_train_sweep(ctx, rep):
+    """the population decoder the structure optimizers call (base/_gpnn.genotype_to_phenotype: decode every tree, train its weights) used the
+    way a sweep over input_block_size uses it: the SAME training arrays and optimizer settings, universal sets of different block sizes,
+    the same tree shapes — every returned net carries exactly one finite weight in [-10, 10] per connection and is the decoding of its tree"""
+    from thefittest.base._gpnn import genotype_to_phenotype as g2p_pop
+    from thefittest.optimizers import SHADE
+    from thefittest.utils.random import numba_seed
+    X, targets = train_data(np.random.RandomState(ctx.rng.randrange(1 << 30)))
+    X = np.hstack([X, X[:, :1] * 0.5])[:, :4] if X.shape[1] < 4 else X[:, :4]
+    nv = X.shape[1]
+    args = dict(iters=3, pop_size=6)
+    shapes = [("op", True, ("in", 0), ("h", 2, 0)), ("op", False, ("op", True, ("in", 0), ("h", 1, 1)), ("h", 2, 0)),
+              ("op", True, ("op", False, ("in", 0), ("in", 0)), ("h", 3, 2)), ("in", 0), ("op", True, ("h", 2, 1), ("h", 1, 0))]
+    for block in (1, 2, 4, 1):
+        parts = N.uniset_parts(N.make_uniset(nv, block, False), False)
+        pop_g = np.array([N.tree_of_shape(sh, parts) for sh in shapes], dtype=object)
+        numba_seed(ctx.rng.randrange(1 << 30))
+        nets = g2p_pop(pop_g, 2, X, targets, dict(args), SHADE, "softmax", False, "classification")
+        for sh, tree, net in zip(shapes, pop_g, nets):
+            ref = N.lib()["g2p"](tree, nv, 2, "softmax", False)
+            w = np.asarray(net._weights, dtype=np.float64)
+            rep.count("decode-train-sweep", (block, N.shape_str(sh)))
+            bad = w.shape != (len(net._connects),) or not np.all(np.isfinite(w)) or bool(np.any(np.abs(w) > 10.0)) \
+                or sorted(map(tuple, np.asarray(net._connects).tolist())) != sorted(map(tuple, np.asarray(ref._connects).tolist()))
+            if bad:
+                rep.problem("train", f"genotype_to_phenotype (decode + train) with input_block_size={block}: a net does not carry one weight in [-10,10] per connection "
+                            f"({len(w)} weights, {len(net._connects)} connections) or is not the decoding of its tree",
+                            dict(fn="genotype_to_phenotype", tree=N.shape_str(sh), input_block_size=block, sweep=[1, 2, 4, 1], n_variables=nv),
+                            "train:weights-per-connection", True, int(len(w)), int(len(net._connects)), "C13_train_weights")
+
+
 def train_weights(ctx, rep):
     """C13 last clause on live tiny trainings: one weight per connection, all within [-10,10]"""
+    decode_and_train_sweep(ctx, rep)
     opts = optimizers()
     X, targets = train_data(np.random.RandomState(ctx.rng.randrange(1 << 30)))
     runs = []
